@@ -306,16 +306,67 @@ Definition nut13_derive (seed keysetId : list Z) (counter : Z) : outcome (list Z
 Definition nut13_derive_spec (seed id : list Z) (counter : Z) : option (list Z * list Z) :=
   nut13_spec hmac_sha512 pubkey_bytes secp_n seed id counter.
 
+(* the executable instance (HMAC-SHA512, secp256k1) satisfies the generic theorems *)
+Theorem nut13_derive_refines : forall seed id counter,
+  length id = 8%nat -> bytes_ok id -> 0 <= counter < 2 ^ 31 ->
+  match nut13_derive_spec seed id counter with
+  | Some v => nut13_derive seed (hex_encode id) counter = Ok v
+  | None => nut13_derive seed (hex_encode id) counter = Err \/
+            nut13_zero_corner hmac_sha512 pubkey_bytes secp_n seed id counter
+  end.
+Proof.
+  exact (nut13_refines hmac_sha512 pubkey_bytes secp_n
+           hmac_sha512_length hmac_sha512_ok secp_n_pos secp_n_256).
+Qed.
+
+Theorem nut13_derive_eq_spec : forall seed id counter,
+  length id = 8%nat -> bytes_ok id -> 0 <= counter < 2 ^ 31 ->
+  ~ nut13_zero_corner hmac_sha512 pubkey_bytes secp_n seed id counter ->
+  nut13_derive seed (hex_encode id) counter = outcome_of (nut13_derive_spec seed id counter).
+Proof.
+  exact (nut13_impl_eq_spec hmac_sha512 pubkey_bytes secp_n
+           hmac_sha512_length hmac_sha512_ok secp_n_pos secp_n_256).
+Qed.
+
 (* /repo/cashu/nuts/nut13/nut13_test.go, counter 0.  The 64-byte seed is
    bip39.NewSeed("half depart obvious quality work element tank gorilla view sugar picture humble", "")
-   as computed by the Go library (PBKDF2 is not modelled).  Counters 1..4 of the same test are
-   checked through the extracted runner by the c11-nut13 stream (two point multiplications
-   per counter cost about two minutes in the VM). *)
+   as computed by the Go library (PBKDF2 is not modelled).
+
+   The four steps m/129372'/0'/864559728'/0' are hardened (no curve arithmetic): checked here
+   with the real functions.  The two last steps .../0 and .../1 are NOT hardened: they hash
+   serP(point(k)) of the counter key, one 256-bit scalar multiplication each (about 40 s each in
+   the VM).  [nut13_vector_0] therefore instantiates the generic functions with serP fixed to
+   that key's 33 public bytes (as hdkeychain computes them) and checks everything else; the
+   vector with the real [pubkey_bytes] - counters 0..4 of the Go test - is run through the
+   extracted runner as the fixed first cases of the c11-nut13 stream. *)
 Definition nut13_test_seed : list Z :=
   hexs "dd44ee516b0647e80b488e8dcc56d736a148f15276bef588b37057476d4b2b25780d3688a32b37353d6995997842c0fd8b412475c891c16310471fbc86dcbda8".
 
+Example nut13_vector_0_hardened_prefix :
+  match hd_new_master nut13_test_seed with
+  | Some m =>
+      match derive_keyset_path_impl hmac_sha512 pubkey_bytes secp_n m (str "009a1f293253e41e") with
+      | Ok kp => option_map hd_priv_bytes (hd_derive kp (u32 (hardened_start + 0)))
+      | _ => None
+      end
+  | None => None
+  end = Some (hexs "61f24290c32690de8c9dc711a414b4ab6f18f197a7b2a0bdec824b2079480f94").
+Proof. vm_check. Qed.
+
+Definition nut13_test_counter0_pub : list Z :=
+  hexs "03e19b103d77ed8f2852a95d5fe8060c0a5d9cfea61f9ebd78b8f4474e708875ac".
+
 Example nut13_vector_0 :
-  nut13_derive nut13_test_seed (str "009a1f293253e41e") 0 =
+  nut13_impl hmac_sha512 (fun _ => nut13_test_counter0_pub) secp_n
+    nut13_test_seed (str "009a1f293253e41e") 0 =
   Ok (str "485875df74771877439ac06339e284c3acfcd9be7abf3bc20b516faeadfe77ae",
       hexs "ad00d431add9c673e843d4c2bf9a778a5f402b985b8da2d5550bf39cda41d679").
+Proof. vm_check. Qed.
+
+(* the text-shaped version on the same input gives the same value *)
+Example nut13_vector_0_spec :
+  nut13_spec hmac_sha512 (fun _ => nut13_test_counter0_pub) secp_n
+    nut13_test_seed (hexs "009a1f293253e41e") 0 =
+  Some (str "485875df74771877439ac06339e284c3acfcd9be7abf3bc20b516faeadfe77ae",
+        hexs "ad00d431add9c673e843d4c2bf9a778a5f402b985b8da2d5550bf39cda41d679").
 Proof. vm_check. Qed.
